@@ -1012,8 +1012,10 @@ def cancelled_app_save_case(ctx, workdir: str, delay: float, at: float) -> None:
                 pass
             await asyncio.sleep(4 * delay)
             gateway.nodes[70] = Node(70, 17, "2.0", sketch_name="changed after the application's cancelled save")
-            # entry save done by ~3*delay, periodic save due 900 s later, itself 3*delay long
-            await asyncio.sleep(start + 3 * delay + SAVE_BOUND + 3 * delay + 30 - loop.time())
+            # the entry save takes a few file operations, the periodic save is due 900 s after it and takes as long again;
+            # HOW MANY operations a save needs (open / write / flush / fsync / close ...) is the implementation's business:
+            # allow twenty per save - a schedule that was pushed back by the application's save is late by minutes
+            await asyncio.sleep(start + 20 * delay + SAVE_BOUND + 20 * delay + 30 - loop.time())
             status, disk = registry_on_disk(path)
             if status != "ok" or disk != typed(snap(gateway.nodes)):
                 problems.append(("periodic-save-too-late", f"slow disk ({delay} s per file operation), application save cancelled "
@@ -1064,10 +1066,9 @@ def unknown_option_pass(ctx, workdir: str) -> None:
                 for file_state in ("missing", "present"):
                     deterministic_case(ctx, workdir, {"transport": "scripted", "mode": ("normal", "body-raises")[k % 2],
                                                       "file": file_state, "k": k, "change": "both", "options": dict(extra)})
-            for variant in ("file-replaced", "file-replaced-and-registry-cleared", "emptied", "emptied-then-periodic", "file-removed"):
+            # not under unknown options: everything about WHEN periodic saves happen (an option may be the save interval)
+            for variant in ("file-replaced", "file-replaced-and-registry-cleared", "emptied", "file-removed-exit-only"):
                 changed_file_between_sessions_case(ctx, workdir, "scripted", variant)
-            second_session_case(ctx, workdir, "scripted", 3)
-            exact_cadence_case(ctx, workdir, 3)
             for periods in (1, 2):
                 for k in (0, 2, 5, 9):
                     late_exit_case(ctx, workdir, periods, k, "normal")
@@ -1140,12 +1141,12 @@ def changed_file_between_sessions_case(ctx, workdir: str, transport_kind: str, v
         async with gateway:
             await asyncio.sleep(1)
         first = typed(snap(gateway.nodes))
-        if variant == "file-removed":
+        if variant in ("file-removed", "file-removed-exit-only"):
             os.unlink(path)  # somebody deleted the file while the gateway was down
             async with gateway:
                 await asyncio.sleep(SAVE_BOUND + 5)
                 status, disk = registry_on_disk(path)
-                if status != "ok" or disk != typed(snap(gateway.nodes)):
+                if variant == "file-removed" and (status != "ok" or disk != typed(snap(gateway.nodes))):
                     problems.append(("no-save-after-entry", f"the file was removed between two sessions: {SAVE_BOUND + 5} s into "
                                                             f"the second session it does not hold the registry (file {status})"))
             status, disk = registry_on_disk(path)
@@ -1193,7 +1194,7 @@ def changed_file_between_sessions_case(ctx, workdir: str, transport_kind: str, v
             return
         result, _loop = run_virtual(scenario)
     ctx.case(("changed-file", transport_kind, variant), sample=case)
-    ctx.clause("file-loaded-on-every-entry" if variant.startswith("file") else "emptied-registry-saved")
+    ctx.clause("file-loaded-on-every-entry" if variant.startswith("file-replaced") else "emptied-registry-saved")
     if isinstance(result, LogicalDeadlock):
         ctx.violation("context-deadlock", f"logical deadlock in {case}", case)
     elif isinstance(result, BaseException):
